@@ -226,12 +226,12 @@ func coqSval(t *Ty, rv reflect.Value) string {
 
 // Spec is the printable, replayable form of one case.
 type Spec struct {
-	Mode   string `json:"mode"` // roundtrip | text | marked
+	Mode   string  `json:"mode"` // roundtrip | text | marked
 	Schema []Field `json:"schema"`
-	Value  any    `json:"value,omitempty"`   // mode roundtrip
-	Text   string `json:"text_hex,omitempty"` // mode text: configuration source (hex)
-	JSON   bool   `json:"json,omitempty"`     // mode text: the source is JSON
-	Note   string `json:"note,omitempty"`
+	Value  any     `json:"value,omitempty"`    // mode roundtrip
+	Text   string  `json:"text_hex,omitempty"` // mode text: configuration source (hex)
+	JSON   bool    `json:"json,omitempty"`     // mode text: the source is JSON
+	Note   string  `json:"note,omitempty"`
 }
 
 func (s *Spec) String() string {
